@@ -119,6 +119,12 @@ func (db *SingleBucketBackend) ListBucket(bucket string, prefix *gofakes3.Prefix
 func (db *SingleBucketBackend) getBucketWithFilePrefixLocked(bucket string, prefix string, prefixPath, prefixPart string) (*gofakes3.ObjectList, error) {
 	response := gofakes3.NewObjectList()
 
+	// No key has a directory part that is not a clean relative path (see
+	// validKey), and one that climbs ("../x") would leave the bucket:
+	if prefixPath != "" && !validKey(prefixPath) {
+		return response, nil
+	}
+
 	// If the directory part of the prefix does not exist, or is an object
 	// rather than a directory, no key can start with the prefix:
 	if prefixPath != "" {
